@@ -85,8 +85,15 @@ MIX3 = [[[[0, 0, 0], [23, 15, 15]], [[24, 0, 0], [39, 15, 15]]],
         [[[24, 8, 8], [47, 23, 23]], [[48, 8, 8], [63, 23, 23]]]]
 
 
+OFFSET16 = [[[[0, 0, 0], [15, 15, 15]], [[16, 0, 0], [31, 15, 15]], [[0, 16, 0], [15, 31, 15]], [[16, 16, 0], [31, 31, 15]]],
+            [[[8, 16, 0], [23, 31, 15]], [[24, 16, 0], [39, 31, 15]], [[8, 32, 16], [23, 47, 31]]],
+            [[[24, 40, 8], [39, 55, 23]], [[40, 40, 8], [55, 55, 23]]]]
+
+
 def scenarios(tier, seed):
-    out = [{"kind": "pestle", "seed": seed * 1000 + 700, "ndims": 3, "nf": 3, "nlevels": 3, "nfiles": 2, "layout": "shuffled",
+    out = [{"kind": "pestle", "seed": seed * 1000 + 703, "ndims": 3, "nf": 3, "nfiles": 2, "layout": "shuffled",
+            "n0": [32, 32, 16], "levels": OFFSET16, "ncombos": 5, "box_sizes": [16, 16], "dx0": [0.25, 0.5, 0.125]},
+           {"kind": "pestle", "seed": seed * 1000 + 700, "ndims": 3, "nf": 3, "nlevels": 3, "nfiles": 2, "layout": "shuffled",
             "box": 8, "n0": [16, 16, 16], "ncombos": 5, "dx0": [0.1, 0.2, 0.4]},
            {"kind": "pestle", "seed": seed * 1000 + 701, "ndims": 3, "nf": 3, "nfiles": 2, "layout": "shuffled",
             "n0": [32, 16, 16], "levels": MIX, "ncombos": 4, "box_sizes": [16, 24]},
